@@ -380,7 +380,7 @@ func c15termSQL(t string) string {
 		return c15symNames[i]
 	}
 	switch {
-	case t == "v" || t == "c":
+	case t == "v" || t == "c" || t == "w":
 		return t
 	case t == "first":
 		return "FIRST(v)"
@@ -521,6 +521,18 @@ func (c15) Gen(rng *rand.Rand, tier string, idx int) Case {
 			}
 		}
 	}
+	// poison rows: every DEFINE also asks `w > 0`; most rows carry w = 1, a few carry the STRING "x", on which the
+	// comparison raises an evaluation error — such a row satisfies no DEFINE, and must leave nothing behind for
+	// the rows (of any partition) evaluated after it
+	poison := rng.Intn(5) == 0
+	if poison {
+		for s := 0; s < nsym; s++ {
+			if defined[s] {
+				defs[s] = append(defs[s], c15atom{"gt", "w", c15k(0)})
+			}
+		}
+		stat("poison-rows")
+	}
 	if exclusive {
 		stat("classes-exclusive")
 	} else {
@@ -614,6 +626,7 @@ func (c15) Gen(rng *rand.Rand, tier string, idx int) Case {
 	}
 	c.Ops = append(c.Ops, []string{"new"})
 	pos := make([]int, nparts)
+	naps := 0
 	ts := int64(0)
 	id := int64(1)
 	for {
@@ -641,7 +654,22 @@ func (c15) Gen(rng *rand.Rand, tier string, idx int) Case {
 		cl := seqs[p][pos[p]]
 		pos[p]++
 		v := rng.Intn(10)
-		c.Ops = append(c.Ops, []string{"row", hx(parts[p]), itoa(id), itoa(ts), strconv.Itoa(cl), strconv.Itoa(v)})
+		op := []string{"row", hx(parts[p]), itoa(id), itoa(ts), strconv.Itoa(cl), strconv.Itoa(v)}
+		if poison {
+			if rng.Intn(6) == 0 {
+				op = append(op, "x")
+			} else {
+				op = append(op, "1")
+			}
+		}
+		c.Ops = append(c.Ops, op)
+		if sqlMode && within > 0 && naps < 2 && rng.Intn(6) == 0 {
+			// a pause longer than the WITHIN sweeper's period (50 ms at least): the sweeper works on epoch-sized
+			// timestamps only and must leave these partial matches alone
+			c.Ops = append(c.Ops, []string{"nap"})
+			naps++
+			stat("nap-between-rows")
+		}
 		id *= 2
 	}
 	// keep the case away from the maxRuns guard (and the model's run list small): replay the
@@ -855,7 +883,16 @@ func c15row(op []string) map[string]interface{} {
 	ts, _ := strconv.ParseInt(op[3], 10, 64)
 	cl, _ := strconv.Atoi(op[4])
 	v, _ := strconv.Atoi(op[5])
-	return map[string]interface{}{"p": unhx(op[1]), "id": id, "ts": ts, "c": cl, "v": v}
+	row := map[string]interface{}{"p": unhx(op[1]), "id": id, "ts": ts, "c": cl, "v": v}
+	if len(op) > 6 {
+		if op[6] == "x" {
+			row["w"] = "x"
+		} else {
+			w, _ := strconv.Atoi(op[6])
+			row["w"] = w
+		}
+	}
+	return row
 }
 
 func (c15) Exec(c Case) [][][]string {
@@ -936,6 +973,9 @@ func c15execSQL(cf c15conf, c Case) [][][]string {
 				continue
 			}
 			s.Emit(c15row(op))
+			out = append(out, nil)
+		case "nap":
+			time.Sleep(70 * time.Millisecond)
 			out = append(out, nil)
 		case "flush":
 			if s == nil {
